@@ -3,6 +3,7 @@ import GeoVerif.Proofs.F64Val
 import Mathlib.Analysis.SpecialFunctions.Trigonometric.Basic
 import Mathlib.Tactic.Ring
 import Mathlib.Tactic.Linarith
+import Mathlib.Analysis.SpecialFunctions.Complex.Arg
 /-!
 # C16 — property theorems (angle arithmetic)
 -/
@@ -269,5 +270,145 @@ example :
     s1.1.isFinite = true ∧ s2.1.isFinite = true ∧
     Dy.eq (Dy.add s1.1.toDy s1.2.toDy) (Dy.add (remainder (F64.neg x) td).toDy (remainder y td).toDy) = true ∧
     Dy.eq (Dy.add s2.1.toDy s2.2.toDy) (Dy.add (remainder s1.1 td).toDy s1.2.toDy) = true := by decide
+
+/-! ## `atan2d`: the octant scheme is correct over ℝ -/
+
+/-- the real-number reading of the operations used by the octant logic (angles in degrees) -/
+noncomputable def realOps : AngOps ℝ :=
+  { abs := fun x => |x|, gt := fun a b => decide (a > b), signbit := fun x => decide (x < 0), neg := fun x => -x,
+    add := fun a b => a + b, sub := fun a b => a - b,
+    copysign := fun a b => if b < 0 then -|a| else |a|, hd := 180, qd := 90 }
+
+/-- the argument of the point `(x, y)` in degrees, in `(−180, 180]` -/
+noncomputable def argd (y x : ℝ) : ℝ := Complex.arg ⟨x, y⟩ * 180 / π
+
+theorem arg_polar (x y : ℝ) (h : (⟨x, y⟩ : ℂ) ≠ 0) :
+    x = ‖(⟨x, y⟩ : ℂ)‖ * cos (Complex.arg ⟨x, y⟩) ∧ y = ‖(⟨x, y⟩ : ℂ)‖ * sin (Complex.arg ⟨x, y⟩) := by
+  have hn : ‖(⟨x, y⟩ : ℂ)‖ ≠ 0 := by simpa using h
+  constructor
+  · rw [Complex.cos_arg h]; field_simp
+  · rw [Complex.sin_arg]; field_simp
+
+theorem arg_of_polar (r θ : ℝ) (hr : 0 < r) (h1 : -π < θ) (h2 : θ ≤ π) :
+    Complex.arg ⟨r * cos θ, r * sin θ⟩ = θ := by
+  have : (⟨r * cos θ, r * sin θ⟩ : ℂ) = (r : ℂ) * (Complex.cos θ + Complex.sin θ * Complex.I) := by
+    apply Complex.ext <;> simp [Complex.cos_ofReal_re, Complex.sin_ofReal_re, Complex.cos_ofReal_im, Complex.sin_ofReal_im]
+  rw [this]
+  exact Complex.arg_mul_cos_add_sin_mul_I hr ⟨h1, h2⟩
+
+/-- what the canonical problem looks like: `x' > 0`, `|y'| ≤ x'` -/
+theorem arg_small (x' y' : ℝ) (hx : 0 < x') :
+    |Complex.arg ⟨x', y'⟩| < π / 2 := by
+  rw [Complex.abs_arg_lt_pi_div_two_iff]; left; exact hx
+
+/-- **`atan2d` octant logic** (real-number reading of the executed definition): for every point other than the origin the
+canonical problem has `x' > 0`, `|y'| ≤ x'`, and the offset/negation scheme applied to the angle of the canonical
+problem returns the angle of `(x, y)` in degrees in `(−180, 180]`. -/
+theorem atan2d_octant (x y : ℝ) (h : ¬ (x = 0 ∧ y = 0)) :
+    0 < (atan2dCanonG realOps y x).2.1 ∧ |(atan2dCanonG realOps y x).1| ≤ (atan2dCanonG realOps y x).2.1 ∧
+    atan2dWrapG realOps y x (argd (atan2dCanonG realOps y x).1 (atan2dCanonG realOps y x).2.1) = argd y x := by
+  have hpi := Real.pi_pos
+  -- generic polar step
+  have key : ∀ (x' y' θ : ℝ), 0 < x' → -π < θ → θ ≤ π →
+      x = ‖(⟨x', y'⟩ : ℂ)‖ * cos θ → y = ‖(⟨x', y'⟩ : ℂ)‖ * sin θ → Complex.arg ⟨x, y⟩ = θ := by
+    intro x' y' θ hx' h1 h2 hx hy
+    have hr : 0 < ‖(⟨x', y'⟩ : ℂ)‖ := by
+      rw [norm_pos_iff]; intro hc; have := congrArg Complex.re hc; simp at this; linarith
+    rw [hx, hy]; exact arg_of_polar _ θ hr h1 h2
+  by_cases hgt : |y| > |x|
+  · -- swapped
+    by_cases hy : y < 0
+    · -- q = 3 : x' = −y, y' = x
+      have hc : atan2dCanonG realOps y x = (x, -y, 3) := by
+        simp [atan2dCanonG, realOps, hgt, hy]
+      have hx' : 0 < -y := by linarith
+      have hne : (⟨-y, x⟩ : ℂ) ≠ 0 := by intro hc'; have := congrArg Complex.re hc'; simp at this; linarith
+      obtain ⟨e1, e2⟩ := arg_polar (-y) x hne
+      have hφ := abs_lt.mp (arg_small (-y) x hx')
+      set φ := Complex.arg ⟨-y, x⟩ with hφdef
+      have harg : Complex.arg ⟨x, y⟩ = φ - π / 2 := by
+        apply key (-y) x (φ - π / 2) hx' (by linarith [hφ.1]) (by linarith [hφ.2])
+        · rw [Real.cos_sub, Real.cos_pi_div_two, Real.sin_pi_div_two]; linarith
+        · rw [Real.sin_sub, Real.cos_pi_div_two, Real.sin_pi_div_two]; linarith
+      rw [hc]
+      refine ⟨hx', ?_, ?_⟩
+      · show |x| ≤ -y; rw [abs_of_neg hy] at hgt; linarith
+      · have hw : ∀ a, atan2dWrapG realOps y x a = realOps.add (realOps.neg realOps.qd) a := by
+          intro a; unfold atan2dWrapG; rw [hc]; rfl
+        rw [hw]; simp only [realOps, argd]
+        rw [harg, ← hφdef]; field_simp; ring
+    · -- q = 2 : x' = y, y' = x
+      have hy0 : 0 < y := by
+        rcases lt_trichotomy y 0 with h1 | h1 | h1
+        · exact absurd h1 hy
+        · rw [h1] at hgt; simp at hgt; exact absurd hgt (not_lt.mpr (abs_nonneg x))
+        · exact h1
+      have hc : atan2dCanonG realOps y x = (x, y, 2) := by
+        simp [atan2dCanonG, realOps, hgt, hy]
+      have hne : (⟨y, x⟩ : ℂ) ≠ 0 := by intro hc'; have := congrArg Complex.re hc'; simp at this; linarith
+      obtain ⟨e1, e2⟩ := arg_polar y x hne
+      have hφ := abs_lt.mp (arg_small y x hy0)
+      set φ := Complex.arg ⟨y, x⟩ with hφdef
+      have harg : Complex.arg ⟨x, y⟩ = π / 2 - φ := by
+        apply key y x (π / 2 - φ) hy0 (by linarith [hφ.2]) (by linarith [hφ.1])
+        · rw [Real.cos_sub, Real.cos_pi_div_two, Real.sin_pi_div_two]; linarith
+        · rw [Real.sin_sub, Real.cos_pi_div_two, Real.sin_pi_div_two]; linarith
+      rw [hc]
+      refine ⟨hy0, ?_, ?_⟩
+      · show |x| ≤ y; rw [abs_of_pos hy0] at hgt; linarith
+      · have hw : ∀ a, atan2dWrapG realOps y x a = realOps.sub realOps.qd a := by
+          intro a; unfold atan2dWrapG; rw [hc]; rfl
+        rw [hw]; simp only [realOps, argd]
+        rw [harg, ← hφdef]; field_simp; ring
+  · have hle : |y| ≤ |x| := not_lt.mp hgt
+    by_cases hx : x < 0
+    · -- q = 1 : x' = −x, y' = y
+      have hc : atan2dCanonG realOps y x = (y, -x, 1) := by
+        simp [atan2dCanonG, realOps, hgt, hx]
+      have hx' : 0 < -x := by linarith
+      have hne : (⟨-x, y⟩ : ℂ) ≠ 0 := by intro hc'; have := congrArg Complex.re hc'; simp at this; linarith
+      obtain ⟨e1, e2⟩ := arg_polar (-x) y hne
+      have hφ := abs_lt.mp (arg_small (-x) y hx')
+      set φ := Complex.arg ⟨-x, y⟩ with hφdef
+      rw [hc]
+      refine ⟨hx', ?_, ?_⟩
+      · show |y| ≤ -x; rw [abs_of_neg hx] at hle; exact hle
+      · have hw : ∀ a, atan2dWrapG realOps y x a = realOps.sub (realOps.copysign realOps.hd y) a := by
+          intro a; unfold atan2dWrapG; rw [hc]; rfl
+        rw [hw]
+        by_cases hyn : y < 0
+        · have hφneg : φ < 0 := by rw [hφdef, Complex.arg_neg_iff]; exact hyn
+          have harg : Complex.arg ⟨x, y⟩ = -π - φ := by
+            apply key (-x) y (-π - φ) hx' (by linarith) (by linarith [hφ.1])
+            · have : cos (-π - φ) = -cos φ := by rw [show -π - φ = -(φ + π) by ring, Real.cos_neg, Real.cos_add_pi]
+              rw [this]; linarith
+            · have : sin (-π - φ) = sin φ := by rw [show -π - φ = -(φ + π) by ring, Real.sin_neg, Real.sin_add_pi]; ring
+              rw [this]; linarith
+          simp only [realOps, argd, hyn, if_true]
+          rw [harg, ← hφdef]; rw [abs_of_pos (by norm_num : (0:ℝ) < 180)]; field_simp
+        · have hφnn : 0 ≤ φ := by rw [hφdef, Complex.arg_nonneg_iff]; exact not_lt.mp hyn
+          have harg : Complex.arg ⟨x, y⟩ = π - φ := by
+            apply key (-x) y (π - φ) hx' (by linarith [hφ.2]) (by linarith)
+            · rw [Real.cos_pi_sub]; linarith
+            · rw [Real.sin_pi_sub]; linarith
+          simp only [realOps, argd, hyn, if_false]
+          rw [harg, ← hφdef]; rw [abs_of_pos (by norm_num : (0:ℝ) < 180)]; field_simp
+    · -- q = 0
+      have hx0 : 0 < x := by
+        rcases lt_trichotomy x 0 with h1 | h1 | h1
+        · exact absurd h1 hx
+        · exfalso; apply h; refine ⟨h1, ?_⟩; rw [h1] at hle; simpa using hle
+        · exact h1
+      have hc : atan2dCanonG realOps y x = (y, x, 0) := by
+        simp [atan2dCanonG, realOps, hgt, hx]
+      rw [hc]
+      refine ⟨hx0, ?_, ?_⟩
+      · show |y| ≤ x; rw [abs_of_pos hx0] at hle; exact hle
+      · unfold atan2dWrapG; rw [hc]; rfl
+
+
+/-- non-vacuity: the hypothesis is satisfiable (negative real axis, the `q = 1` case) -/
+example : atan2dWrapG realOps 0 (-1) (argd (atan2dCanonG realOps 0 (-1)).1 (atan2dCanonG realOps 0 (-1)).2.1) = argd 0 (-1) :=
+  (atan2d_octant (-1) 0 (by norm_num)).2.2
 
 end GeoVerif.Props.C16
